@@ -32,4 +32,8 @@ VARIANTS = [
     T("call-dispatch-hasattr", "curve.BaseCurve.__call__", "iter(nodes)\n        return self.eval(nodes)", "nodes = tuple(nodes)\n        return self.eval(nodes)"),
     T("winding-wrap-as-if", "curve.IntegratePlanar.winding_number_linear", "return wind - 1 if wind > 0 else wind + 1", "if wind > 0:\n        return wind - 1\n    return wind + 1"),
     T("derivative-loop-var", "curve.Derivate.non_rational_bezier", "for i in range(times):\n        derive = Derivate.non_rational_bezier_once(degree - i)", "for k in range(times):\n        derive = Derivate.non_rational_bezier_once(degree - k)"),
+    # the characteristic matrix is symmetric (its (i, j) entry is C(p, i) C(p - i, j) (-1)^(p + i + j) = p! / (i! j! (p-i-j)!)
+    # up to the sign): multiplying from the other side gives the same canonical points
+    T("eval-matrix-on-the-other-side", "curve.BezierCurve.eval", "canon_pts = np.dot(self.ctrlpoints, matrix)", "canon_pts = np.dot(matrix, self.ctrlpoints)"),
+    M("eval-results-reversed", "curve.BezierCurve.eval", "results[k] = Math.horner_method(node, canon_pts)", "results[-1 - k] = Math.horner_method(node, canon_pts)", ["R18.13"]),
 ]
